@@ -53,6 +53,7 @@ func runStateAdapterPar(seed uint64) {
 	r := newPrng(seed ^ 0xada9)
 	copy(s.nodeID[:], r.bytes(32))
 	spebble.VerifYield = s.yield
+	spebble.VerifYieldLockHook = s.yieldLock
 	s.disk = newSimDisk()
 	if !s.open(true) {
 		w.finish()
